@@ -20,8 +20,9 @@ func init() { props["C12"] = runC12 }
 
 const c12Header = `From Coq Require Import String List ZArith.
 Import ListNotations.
-From GW Require Import Base.Res Gw.Cache Gw.CacheCheck.
+From GW Require Import Base.Res Base.Json Gw.Cache Gw.CacheCheck.
 Local Open Scope string_scope.
+Local Open Scope bool_scope.
 `
 
 type tagPlanner struct{ calls int64 }
@@ -138,6 +139,27 @@ func runC12(cfg *runCfg) error {
 	queries := []string{"{ a }", "{ b }", "{ c d }", "{ bad }"}
 	var hists [][]c12Ev
 	if cfg.Replay != "" {
+		var kind struct {
+			Case struct {
+				Kind  string          `json:"kind"`
+				Input json.RawMessage `json:"input"`
+			} `json:"case"`
+		}
+		if err := readJSON(cfg.Replay, &kind); err == nil && kind.Case.Kind == "http-batch-one-cache" {
+			bc := &c11BatchCase{}
+			if err := json.Unmarshal(kind.Case.Input, bc); err != nil {
+				return err
+			}
+			bid := 0
+			if err := c11BatchCases(cfg, r, sh, doc, &bid, 1, bc); err != nil {
+				return err
+			}
+			if err := sh.Flush(); err != nil {
+				return err
+			}
+			doc.Shards = sh.Files
+			return doc.Write(cfg.Out)
+		}
 		var rp struct {
 			Case struct {
 				Input []c12Ev `json:"input"`
@@ -275,6 +297,19 @@ func runC12(cfg *runCfg) error {
 		doc.Cases = append(doc.Cases, CaseInfo{ID: base + i, Kind: "concurrent-burst", Input: map[string]interface{}{"burst": i, "ttl_ms": c12TTL.Milliseconds()},
 			Observed: map[string]interface{}{"ok": ok, "note": note}, Nontrivial: true, Key: fmt.Sprintf("burst-%d-%d", cfg.Seed, i)})
 		doc.Dist["burst"]++
+	}
+	if cfg.Replay == "" {
+		// the handler's side of the cache: a batch in which some operations carry the hash of their own
+		// text and some do not, every entry against the answer the same operation gets alone from a
+		// fresh gateway (what a request is keyed by is its own hash, or the sha256 of its own text)
+		nb := 20
+		if cfg.Tier == "thorough" {
+			nb = 200
+		}
+		bid := 1000000
+		if err := c11BatchCases(cfg, rand.New(rand.NewSource(cfg.Seed+211)), sh, doc, &bid, nb, nil); err != nil {
+			return err
+		}
 	}
 	if err := sh.Flush(); err != nil {
 		return err
